@@ -16,7 +16,9 @@ RULE = ("generated programs (expressions, statement programs, inheritance chains
         "sets; non-ASCII text added) rendered through render, generate, stream (unbuffered and "
         "buffered n=2..8), dump to a path / text file / binary file with encoding / object without "
         "writelines, and str(make_module(vars)); all must equal render() (or raise the same class); "
-        "buffered chunks must equal concat(nonempty[i:i+n]) of the unbuffered pieces. distinct = "
+        "buffered chunks must equal concat(nonempty[i:i+n]) of the unbuffered pieces; streams whose "
+        "buffering is switched (other size / off / dump) after k chunks were read must still "
+        "concatenate to render(). distinct = "
         "distinct program shapes that produced >= 3 pieces")
 LEVEL_TEXT = "held on the generated programs and buffer sizes only"
 ASSUMPTIONS = ["encodings utf-8 and utf-16 only", "data is not mutated between entry points (fresh iterators per call)"]
@@ -25,10 +27,12 @@ BUDGET_S = {"quick": 20, "thorough": 500}
 FLOORS = {
     "quick": {"evaluations": 3000, "distinct": 300,
               "counters": {"buffer_rule_checks": 1500, "dump_checks": 800, "with_empty_pieces": 100,
-                           "module_checks": 200, "module_history_steps": 300}},
+                           "module_checks": 200, "module_history_steps": 300,
+                           "buffer_switch_histories": 400}},
     "thorough": {"evaluations": 60000, "distinct": 5000,
                  "counters": {"buffer_rule_checks": 30000, "dump_checks": 16000,
-                              "with_empty_pieces": 2000, "module_checks": 4000, "module_history_steps": 6000}},
+                              "with_empty_pieces": 2000, "module_checks": 4000, "module_history_steps": 6000,
+                              "buffer_switch_histories": 8000}},
 }
 
 
@@ -96,6 +100,36 @@ def check_case(ctx, case, tmpdir, is_async=False):
     s.disable_buffering()
     if list(s) != pieces:
         viol("buffering:disable", "disable_buffering() does not restore unbuffered pieces")
+    # switching the buffering mode in the middle of a stream loses and duplicates nothing
+    for n, k, m in ((2, 1, 0), (3, 1, 2), (2, 2, 5), (4, 1, 0), (3, 2, 3)):
+        if len(nonempty) < n * k + 1:
+            continue
+        s = get().stream(data())
+        s.enable_buffering(n)
+        got = [next(s) for _ in range(k)]
+        if m:
+            s.enable_buffering(m)
+        else:
+            s.disable_buffering()
+        got += list(s)
+        ctx.ev()
+        ctx.count("buffer_switch_histories")
+        if "".join(got) != text:
+            viol("buffering:switch-mid-stream",
+                 f"enable_buffering({n}), {k} chunk(s) read, then "
+                 f"{'enable_buffering(%d)' % m if m else 'disable_buffering()'}: chunks {got!r} "
+                 f"do not concatenate to render() {text!r} (pieces {pieces!r})")
+            break
+    # a buffered stream dumped after some chunks were read writes exactly the rest
+    if len(nonempty) >= 3:
+        s = get().stream(data())
+        s.enable_buffering(2)
+        first = next(s)
+        buf = io.StringIO()
+        s.dump(buf)
+        ctx.count("buffer_switch_histories")
+        if first + buf.getvalue() != text:
+            viol("buffering:dump-after-read", f"next() + dump() gives {first + buf.getvalue()!r} != {text!r}")
     # dump targets
     path = os.path.join(tmpdir, "out.txt")
     for enc in ("utf-8", "utf-16"):
